@@ -98,12 +98,28 @@ Proof.
   - unfold ends_clean in *. rewrite last_cons2 in H. rewrite (IH H). reflexivity.
 Qed.
 
-Lemma trim_file_clean ls : forallb ends_clean (trim_file ls) = true.
-Proof. unfold trim_file. induction ls as [|l ls IH]; cbn [map forallb]; [reflexivity|]. rewrite rtrim_clean. exact IH. Qed.
-Lemma trim_file_id ls : forallb ends_clean ls = true -> trim_file ls = ls.
+Lemma trim_line_settled s : line_settled (trim_line s) = true.
+Proof.
+  unfold trim_line, line_settled. destruct (last (rtrim s) 0 =? 92) eqn:E.
+  - rewrite E. apply orb_true_r.
+  - rewrite rtrim_clean. reflexivity.
+Qed.
+
+Lemma trim_line_id s : line_settled s = true -> trim_line s = s.
+Proof.
+  unfold trim_line, line_settled. destruct (last (rtrim s) 0 =? 92); [reflexivity|].
+  rewrite orb_false_r. apply rtrim_id.
+Qed.
+
+Lemma clean_settled s : ends_clean s = true -> line_settled s = true.
+Proof. unfold line_settled. intros ->. reflexivity. Qed.
+
+Lemma trim_file_clean ls : forallb line_settled (trim_file ls) = true.
+Proof. unfold trim_file. induction ls as [|l ls IH]; cbn [map forallb]; [reflexivity|]. rewrite trim_line_settled. exact IH. Qed.
+Lemma trim_file_id ls : forallb line_settled ls = true -> trim_file ls = ls.
 Proof.
   unfold trim_file. induction ls as [|l ls IH]; cbn [map forallb]; intros H; [reflexivity|].
-  apply andb_true_iff in H as [H1 H2]. rewrite (rtrim_id _ H1), (IH H2). reflexivity.
+  apply andb_true_iff in H as [H1 H2]. rewrite (trim_line_id _ H1), (IH H2). reflexivity.
 Qed.
 Theorem trim_settles ls : trim_file (trim_file ls) = trim_file ls.
 Proof. apply trim_file_id, trim_file_clean. Qed.
@@ -210,7 +226,7 @@ Proof.
 Qed.
 
 Definition F_header (p : str) : fixer (list str) := Build_fixer (fix_header p) (fun ls => header_ok p ls = true).
-Definition F_trim : fixer (list str) := Build_fixer trim_file (fun ls => forallb ends_clean ls = true).
+Definition F_trim : fixer (list str) := Build_fixer trim_file (fun ls => forallb line_settled ls = true).
 
 Lemma sound_header p : sound (F_header p).
 Proof. split; cbn; [apply header_ok_fix|apply fix_header_id]. Qed.
@@ -221,13 +237,14 @@ Lemma trim_preserves_header p : preserves F_trim (F_header p).
 Proof.
   intros ls. cbn. destruct ls as [|l0 r]; [reflexivity|]. cbn [header_ok]. intros H.
   apply andb_true_iff in H as [H1 H2]. destruct r as [|l1 r']; [discriminate|]. destruct l1; [|discriminate].
-  unfold trim_file. cbn [map rtrim header_ok]. rewrite (rtrim_id _ (cvsid_ends_clean _ _ H1)), H1. reflexivity.
+  unfold trim_file. cbn [map header_ok].
+  rewrite (trim_line_id _ (clean_settled _ (cvsid_ends_clean _ _ H1))), H1. reflexivity.
 Qed.
 
 Lemma header_preserves_trim p : preserves (F_header p) F_trim.
 Proof.
   intros ls. cbn. intros H.
-  assert (Hid : ends_clean (cvsid_line p) = true) by (apply (cvsid_ends_clean p), is_cvsid_line).
+  assert (Hid : line_settled (cvsid_line p) = true) by (apply clean_settled, (cvsid_ends_clean p), is_cvsid_line).
   destruct ls as [|l0 r]; [reflexivity|]. cbn [fix_header].
   cbn [forallb] in H. apply andb_true_iff in H as [H0 Hr].
   destruct (is_cvsid p l0).
